@@ -69,5 +69,52 @@ theorem c01_monotonic_pattern_in_range (ny k : ℕ) (hk : k < 2 * (ny - 1)) : mo
 theorem c01_monotonic_pattern_injective (k k' : ℕ) (h : monoRow k = monoRow k') (h' : monoCol k = monoCol k') : k = k' := by
   unfold monoRow monoCol at *; omega
 
+/-! ### RadiusComp: the declared columns of `d radius / d mesh` are exactly the nodes the radius depends on -/
+open Wingbox in
+/-- **locality**: the radius of element `j` depends only on the leading- and trailing-edge nodes of stations `j` and `j + 1` -/
+theorem c01_radius_local (nx : ℕ) (m m' : Mesh ℝ) (tc : ℕ → ℝ) (j : ℕ)
+    (h1 : m 0 j = m' 0 j) (h2 : m 0 (j + 1) = m' 0 (j + 1)) (h3 : m (nx - 1) j = m' (nx - 1) j)
+    (h4 : m (nx - 1) (j + 1) = m' (nx - 1) (j + 1)) : radii nx m tc j = radii nx m' tc j := by
+  unfold radii streamwiseChord chordLen
+  rw [h1, h2, h3, h4]
+
+/-- flattened index of `mesh[i, j, d]` in an `[nx, ny, 3]` array -/
+def flat (ny i j d : ℕ) : ℕ := 3 * (i * ny + j) + d
+
+/-- **the declared pattern names exactly those nodes**: entry `k` of row `j` (`k = 6 j + q`, `q < 6`) in the first half is coordinate
+`q % 3` of the leading-edge node `j + q / 3`, the same entry in the second half is that coordinate of the trailing-edge node -/
+theorem c01_radius_pattern (nx ny j q : ℕ) (hj : j < ny - 1) (hq : q < 6) :
+    radRow ny (6 * j + q) = j ∧ radCol nx ny (6 * j + q) = flat ny 0 (j + q / 3) (q % 3) ∧
+    radRow ny (6 * (ny - 1) + (6 * j + q)) = j ∧
+    radCol nx ny (6 * (ny - 1) + (6 * j + q)) = flat ny (nx - 1) (j + q / 3) (q % 3) := by
+  have hlt : 6 * j + q < 6 * (ny - 1) := by omega
+  have hm1 : (6 * j + q) % (6 * (ny - 1)) = 6 * j + q := Nat.mod_eq_of_lt hlt
+  have hm2 : (6 * (ny - 1) + (6 * j + q)) % (6 * (ny - 1)) = 6 * j + q := by
+    rw [Nat.add_mod_left, hm1]
+  have hd : (6 * j + q) / 6 = j := by omega
+  have hr : (6 * j + q) % 6 = q := by omega
+  have hge : ¬ (6 * (ny - 1) + (6 * j + q) < 6 * (ny - 1)) := by omega
+  refine ⟨?_, ?_, ?_, ?_⟩
+  · simp only [radRow, hm1, hd]
+  · simp only [radCol, hm1, hd, hr, hlt, if_true, flat]; omega
+  · simp only [radRow, hm2, hd]
+  · simp only [radCol, hm2, hd, hr, hge, if_false, flat]
+    have : (nx - 1) * 3 * ny = 3 * ((nx - 1) * ny) := by ring
+    omega
+
+/-- every declared entry is inside the `[ny − 1, 3 nx ny]` Jacobian (for `nx ≥ 1`) -/
+theorem c01_radius_pattern_in_range (nx ny j q : ℕ) (hnx : 1 ≤ nx) (hj : j < ny - 1) (hq : q < 6) :
+    flat ny 0 (j + q / 3) (q % 3) < 3 * (nx * ny) ∧ flat ny (nx - 1) (j + q / 3) (q % 3) < 3 * (nx * ny) := by
+  unfold flat
+  obtain ⟨n, rfl⟩ : ∃ n, nx = n + 1 := ⟨nx - 1, by omega⟩
+  have h1 : j + q / 3 < ny := by omega
+  have h2 : q % 3 < 3 := Nat.mod_lt _ (by norm_num)
+  constructor
+  · have : 3 * ((n + 1) * ny) = 3 * (n * ny) + 3 * ny := by ring
+    nlinarith
+  · have : 3 * ((n + 1) * ny) = 3 * (n * ny) + 3 * ny := by ring
+    simp only [Nat.add_sub_cancel]
+    nlinarith
+
 end C01Patterns
 end OAS
